@@ -12,7 +12,7 @@ SPEC = {
                     "theorems cover the single hops (announcement -> report, goodbye -> removal) on the tied component models"],
 }
 
-NAMES = ["Alpha", "Beta", "Gamma", "Delta"]
+NAMES = ["Alpha", "Beta", "Caf\u00e9 Zo\u00eb", "Delta"]       # one instance name with non-ASCII (UTF-8) bytes
 
 
 def svc(stype, name, port, attrs):
